@@ -262,6 +262,9 @@ def callee(t):
 class Facts:
     def __init__(self, path):
         self.raw = json.load(open(path))
+        from . import inline
+        voc = inline.load_vocabulary()
+        self.inlined = inline.inline_new_helpers(self.raw, voc, strip_lt) if voc is not None and self.raw.get("crate") == "regexml" else []
         self.crate = self.raw["crate"]
         self.nonce = self.raw.get("nonce")
         self.bodies = [Body(b) for b in self.raw["bodies"]]
